@@ -107,6 +107,10 @@ func runC18(c *Ctx) {
 					}
 				} else if _, ok := elem.Underlying().(*types.Interface); ok {
 					kind = "interface"
+				} else if sig, ok := elem.Underlying().(*types.Signature); ok && c.memoProducer(g) != nil && sig.Results().Len() > 0 {
+					// a memoising function (sync.OnceValue): every call yields the same value,
+					// which is therefore shared exactly like the value of a package-level variable
+					kind = "memo"
 				}
 			}
 			globals = append(globals, gvar{g, kind})
@@ -177,13 +181,41 @@ func runC18(c *Ctx) {
 		} else {
 			c.ok("ISO-GLOBALSTORE", name, "assignment outside init", g.Pos(), "no Store to the variable outside package initialisers", "")
 		}
-		if gv.kind != "refdata" && gv.kind != "safe-object" {
+		if gv.kind != "refdata" && gv.kind != "safe-object" && gv.kind != "memo" {
 			continue
 		}
 		// ISO-SHARED: follow the storage
 		t := newFlowTracker(c)
+		if gv.kind == "refdata" {
+			t.immutableElems = c.globalElemsImmutable(g, map[ssa.Value]bool{})
+		}
+		if gv.kind == "memo" {
+			// the shared storage is what the calls of the memoising function return
+			t.immutableElems = c.resultElemsImmutable(c.memoProducer(g), map[ssa.Value]bool{})
+			for _, ins := range uses[g] {
+				ld, ok := ins.(*ssa.UnOp)
+				if !ok || ld.X != g || isInitFunc(ins.Parent()) {
+					continue
+				}
+				for _, r := range *ld.Referrers() {
+					if call, ok := r.(*ssa.Call); ok && call.Call.Value == ld {
+						if isPointerLike(call.Type()) || isAggregateWithRefs(call.Type()) {
+							t.track(call)
+						} else if _, isTuple := call.Type().(*types.Tuple); isTuple {
+							for i := 0; i < call.Type().(*types.Tuple).Len(); i++ {
+								t.trackExtract(call, i)
+							}
+						}
+						continue
+					}
+					if _, ok := r.(*ssa.DebugRef); !ok {
+						t.use(ld, r) // the function value itself is passed on
+					}
+				}
+			}
+		}
 		for _, ins := range uses[g] {
-			if isInitFunc(ins.Parent()) {
+			if isInitFunc(ins.Parent()) || gv.kind == "memo" {
 				continue
 			}
 			switch ins := ins.(type) {
@@ -351,8 +383,24 @@ func underOnceOrLock(ins ssa.Instruction) bool {
 // locksHeldAt returns the receivers whose Lock() dominates ins without an
 // intervening non-deferred Unlock on the same receiver.
 func locksHeldAt(ins ssa.Instruction) []ssa.Value {
-	fn := ins.Parent()
 	var held []ssa.Value
+	for _, h := range locksHeldModes(ins) {
+		held = append(held, h.recv)
+	}
+	return held
+}
+
+// heldLock: a mutex held at an instruction; shared = only the read side of a sync.RWMutex
+// (any number of goroutines can hold it at the same time, so it orders reads against writes
+// under the exclusive lock but nothing against other holders of the read lock).
+type heldLock struct {
+	recv   ssa.Value
+	shared bool
+}
+
+func locksHeldModes(ins ssa.Instruction) []heldLock {
+	fn := ins.Parent()
+	var held []heldLock
 	for _, b := range fn.Blocks {
 		for i, li := range b.Instrs {
 			call, ok := li.(*ssa.Call)
@@ -385,11 +433,93 @@ func locksHeldAt(ins ssa.Instruction) []ssa.Value {
 				}
 			}
 			if !released {
-				held = append(held, recv)
+				held = append(held, heldLock{recv: recv, shared: sc.String() == "(*sync.RWMutex).RLock"})
 			}
 		}
 	}
 	return held
+}
+
+// lockOn: is the lock on base held at ins — exclusively, if exclusive is asked for?
+func lockOn(ins ssa.Instruction, base ssa.Value, exclusive bool) (held, onlyShared bool) {
+	for _, h := range locksHeldModes(ins) {
+		if mutexBase(h.recv) != base {
+			continue
+		}
+		if exclusive && h.shared {
+			onlyShared = true
+			continue
+		}
+		return true, false
+	}
+	return false, onlyShared
+}
+
+// writesGuarded: the access through field address fa modifies the guarded memory: a store to the
+// field, or an update of the map / an element store into the slice loaded from it (here or in a
+// module function it is handed to).
+func (c *Ctx) writesGuarded(fa ssa.Value) bool {
+	seen := map[ssa.Value]bool{}
+	var through func(v ssa.Value, depth int) bool
+	through = func(v ssa.Value, depth int) bool {
+		if seen[v] || depth > 4 || v.Referrers() == nil {
+			return false
+		}
+		seen[v] = true
+		for _, r := range *v.Referrers() {
+			switch r := r.(type) {
+			case *ssa.Store:
+				if r.Addr == v {
+					return true
+				}
+			case *ssa.MapUpdate:
+				if r.Map == v {
+					return true
+				}
+			case *ssa.UnOp:
+				if r.Op == token.MUL && r.X == v && isPointerLike(r.Type()) && through(r, depth+1) {
+					return true
+				}
+			case *ssa.IndexAddr:
+				if r.X == v && through(r, depth+1) {
+					return true
+				}
+			case *ssa.FieldAddr:
+				if r.X == v && through(r, depth+1) {
+					return true
+				}
+			case *ssa.Slice:
+				if r.X == v && through(r, depth+1) {
+					return true
+				}
+			case *ssa.Phi:
+				if through(r, depth+1) {
+					return true
+				}
+			case ssa.CallInstruction:
+				com := r.Common()
+				if b, ok := com.Value.(*ssa.Builtin); ok {
+					switch b.Name() {
+					case "delete", "clear", "copy", "append":
+						if len(com.Args) > 0 && com.Args[0] == v {
+							return true
+						}
+					}
+					continue
+				}
+				if callee := com.StaticCallee(); callee != nil {
+					eff := c.effects().of(callee)
+					for i, a := range com.Args {
+						if a == v && eff.Params[i] {
+							return true
+						}
+					}
+				}
+			}
+		}
+		return false
+	}
+	return through(fa, 0)
 }
 
 func instrDominates(b *ssa.BasicBlock, idx int, ins ssa.Instruction) bool {
@@ -453,15 +583,13 @@ func (c *Ctx) lockRules(guarded map[*types.Named]bool) {
 					continue // construction
 				}
 				nacc++
-				heldHere := false
-				for _, h := range locksHeldAt(ins) {
-					if mutexBase(h) == fa.X {
-						heldHere = true
-					}
-				}
+				isWrite := c.writesGuarded(fa)
+				heldHere, onlyShared := lockOn(ins, fa.X, isWrite)
 				fieldName := n.Obj().Name() + "." + st.Field(fa.Field).Name()
 				if heldHere {
 					c.ok("ISO-LOCK", c.fname(fn), fieldName, ins.Pos(), "Lock on the same receiver dominates the access", "")
+				} else if onlyShared {
+					c.fail("ISO-LOCK", c.fname(fn), fieldName, ins.Pos(), "mutex-guarded field "+fieldName+" is written while only the read lock (RLock) is held: any number of goroutines can hold the read lock at once, so the write races with their reads and writes")
 				} else {
 					unlocked = append(unlocked, access{fn, ins, fa})
 				}
@@ -475,6 +603,7 @@ func (c *Ctx) lockRules(guarded map[*types.Named]bool) {
 		fieldName := n.Obj().Name() + "." + st.Field(a.fa.Field).Name()
 		par, isParam := a.fa.X.(*ssa.Parameter)
 		okAll := isParam && a.fn.Parent() == nil && !exportedAPI(a.fn)
+		isWrite := c.writesGuarded(a.fa)
 		ncalls := 0
 		var why string
 		if okAll {
@@ -506,15 +635,13 @@ func (c *Ctx) lockRules(guarded map[*types.Named]bool) {
 							continue
 						}
 						ncalls++
-						held := false
-						for _, h := range locksHeldAt(ins) {
-							if mutexBase(h) == com.Args[pidx] {
-								held = true
-							}
-						}
+						held, onlyShared := lockOn(ins, com.Args[pidx], isWrite)
 						if _, isDefer := ins.(*ssa.Defer); isDefer || !held {
 							okAll = false
 							why = "call site in " + c.fname(caller) + " at " + c.pos(ins.Pos()) + " does not hold the lock"
+							if onlyShared {
+								why = "call site in " + c.fname(caller) + " at " + c.pos(ins.Pos()) + " holds only the read lock (RLock) although the field is written here: concurrent holders of the read lock race with the write"
+							}
 						}
 					}
 				}
@@ -717,6 +844,13 @@ var readOnlyMethods = map[string][]string{
 }
 
 func (c *Ctx) readOnlyAPI() {
+	c.readOnlyEntryPoints("ISO-READONLY", "does not modify the value it is called on", 12,
+		": the same font/metrics value then gives different results on the next call or races with concurrent readers")
+}
+
+// readOnlyEntryPoints decides, for every serialiser and query method, that no store is reachable
+// from the receiver and no package-level variable is written (write effects, effects.go).
+func (c *Ctx) readOnlyEntryPoints(rule, construct string, floor int, consequence string) {
 	var keys []string
 	for k := range readOnlyMethods {
 		keys = append(keys, k)
@@ -741,13 +875,14 @@ func (c *Ctx) readOnlyAPI() {
 			for g := range eff.Globals {
 				bad = append(bad, "writes package-level "+g)
 			}
+			sort.Strings(bad)
 			if len(eff.Heap) > 0 {
 				bad = append(bad, dedup(eff.Heap)...)
 			}
 			if eff.Captured {
 				bad = append(bad, "writes captured variables")
 			}
-			c.check(len(bad) == 0, "ISO-READONLY", c.fname(f), "does not modify the value it is called on", f.Pos(), "no store reachable from the receiver, no package-level write", c.fname(f)+" is a serialiser/query method but "+strings.Join(bad, "; ")+": the same font/metrics value then gives different results on the next call or races with concurrent readers")
+			c.check(len(bad) == 0, rule, c.fname(f), construct, f.Pos(), "no store reachable from the receiver, no package-level write", c.fname(f)+" is a serialiser/query method but "+strings.Join(bad, "; ")+consequence)
 		}
 	}
 	for _, fn := range []struct{ pkg, name string }{{"names", "ToUnicode"}, {"names", "FromUnicode"}, {"names", "IsValid"}} {
@@ -761,5 +896,46 @@ func (c *Ctx) readOnlyAPI() {
 	if len(missing) > 0 {
 		c.rep.Extra["readonly_api_missing"] = missing
 	}
-	c.floor("ISO-READONLY", 12)
+	c.floor(rule, floor)
+}
+
+// memoProducer: package-level g (of function type) is initialised with sync.OnceValue(f) /
+// sync.OnceValues(f) and never assigned otherwise; f is returned.
+func (c *Ctx) memoProducer(g *ssa.Global) *ssa.Function {
+	var prod *ssa.Function
+	n := 0
+	for _, fn := range c.modFuncs {
+		for _, b := range fn.Blocks {
+			for _, ins := range b.Instrs {
+				st, ok := ins.(*ssa.Store)
+				if !ok || st.Addr != g {
+					continue
+				}
+				n++
+				call, ok := st.Val.(*ssa.Call)
+				if !ok {
+					return nil
+				}
+				callee := call.Call.StaticCallee()
+				if callee == nil || len(call.Call.Args) != 1 {
+					return nil
+				}
+				if nm := extName(callee); nm != "sync.OnceValue" && nm != "sync.OnceValues" {
+					return nil
+				}
+				switch a := call.Call.Args[0].(type) {
+				case *ssa.Function:
+					prod = a
+				case *ssa.MakeClosure:
+					prod = a.Fn.(*ssa.Function)
+				default:
+					return nil
+				}
+			}
+		}
+	}
+	if n != 1 {
+		return nil
+	}
+	return prod
 }
